@@ -440,7 +440,7 @@ func genStructCase(rt *rapid.T) StructCase {
 	bad := []string{"bad-int", "bad-float", "bad-chan", "empty-tag"}
 	withBad := rapid.IntRange(0, 9).Draw(rt, "withbad") == 0
 	allUntagged := rapid.IntRange(0, 14).Draw(rt, "alluntagged") == 0
-	used := map[string]bool{}
+	used := map[string]string{}
 	n := rapid.IntRange(1, 8).Draw(rt, "nfields")
 	for i := 0; i < n; i++ {
 		pool := good
@@ -452,10 +452,17 @@ func genStructCase(rt *rapid.T) StructCase {
 		}
 		f := FieldSpec{Kind: rapid.SampledFrom(pool).Draw(rt, "kind")}
 		f.Tag = rapid.SampledFrom(c20Tags).Draw(rt, "tag")
-		if used[f.Tag] && isTagged(f.Kind) {
-			f.Tag = fmt.Sprintf("%s-%d", f.Tag, i) // distinct secrets per field keep the oracle simple
+		raw := f.Kind == "bytes" || f.Kind == "string" || f.Kind == "secret" || f.Kind == "bin" || f.Kind == "binptr"
+		if used[f.Tag] != "" && isTagged(f.Kind) && !(raw && used[f.Tag] == "raw") {
+			f.Tag = fmt.Sprintf("%s-%d", f.Tag, i) // same secret for two fields only among the raw kinds (one value fits both)
 		}
-		used[f.Tag] = true
+		if isTagged(f.Kind) {
+			if raw {
+				used[f.Tag] = "raw"
+			} else {
+				used[f.Tag] = "structured"
+			}
+		}
 		switch rapid.IntRange(0, 7).Draw(rt, "valkind") {
 		case 0:
 			f.Val = []byte{}
